@@ -322,3 +322,53 @@ func DescribeMode(m map[int]*int, mode int) map[int]*int {
 	}
 	return m
 }
+
+// A type-switch clause with several types binds the interface value itself.
+type U struct{ Y int }
+
+func Multi(x any) any {
+	switch v := x.(type) {
+	case *int, *U:
+		return v
+	}
+	return 1
+}
+
+func MultiTyped() any {
+	var p *int
+	var x any = p
+	switch v := x.(type) {
+	case *int, *U:
+		return v
+	}
+	return nil
+}
+
+func MultiErr(x any, b bool) any {
+	switch v := x.(type) {
+	case error, *U:
+		if b {
+			return v
+		}
+	}
+	return 2
+}
+
+// uintptr -> unsafe.Pointer through a type parameter
+func ConvT[T ~uintptr](x T) unsafe.Pointer { return unsafe.Pointer(x) }
+
+func ConvTCaller(u uintptr) unsafe.Pointer { return ConvT(u) }
+
+func ConvTIface(u uintptr) any { return ConvT(u) }
+
+func MultiNil(x any) any {
+	switch v := x.(type) {
+	case nil, *int:
+		return v
+	}
+	return 3
+}
+
+func ConvM[T ~uintptr | ~unsafe.Pointer](x T) unsafe.Pointer { return unsafe.Pointer(x) }
+
+func ConvMCaller(u uintptr) unsafe.Pointer { return ConvM(u) }
